@@ -817,6 +817,27 @@ def check_factors(ctx, case):
         if t is None or t.shape != (3, tab.n):
             ctx.violation('%s.xray.sftable has shape %r, the file has %d rows'
                           % (el, None if t is None else t.shape, tab.n), kind='sftable')
+            return
+        # a tabulated f1 next to a missing one: asked for at the library's own node abscissa (sftable[0][k], so that
+        # no unit conversion moves the energy off the node) the answer is the tabulated value, not "unknown" -
+        # the quantifier includes the table nodes, and the row does carry a value
+        import numpy as np
+        for k in range(tab.n):
+            if tab.f1[k] is None or not ((k > 0 and tab.f1[k - 1] is None) or (k < tab.n - 1 and tab.f1[k + 1] is None)):
+                continue
+            e = float(t[0][k])
+            if not abs(e - tab.E[k]) <= 2 * math.ulp(tab.E[k]) or tab.excluded(e):
+                ctx.count('f1.node_next_to_missing.not_judged')
+                continue
+            s1, _s2 = el.xray.scattering_factors(energy=e)
+            v1, _v2 = el.xray.scattering_factors(energy=np.array([e, e]))
+            ctx.evaluated(2, 'f1_node_next_to_missing')
+            for how, g in (('scalar call', float(s1)), ('vector call', float(np.asarray(v1)[0]))):
+                if _isnan(g) or not abs(g - tab.f1[k]) <= 1e-10 * abs(tab.f1[k]) + 1e-300:
+                    bud.violation('%s nodes (%s): f1 at the table node %r keV (row %d, the first/last row with a tabulated '
+                                  'f1) is %r, the row says %r' % (el, how, e, k, g, tab.f1[k]),
+                                  kind='f1-node', Z=Z, energy=e, got=g, want=tab.f1[k])
+                    break
 
 
 def check_ions(ctx, case):
@@ -1341,7 +1362,22 @@ def check_density_route(ctx, case):
         ctx.count('route.%s.%s' % (label, kwname))
         _cmp_sld(ctx, bud, got, ref, 'xray_sld(%s, energy=%r) [density in effect %r g/cm^3: %s]'
                  % (call, E, d_eff, _why(kwname, R)), what='route_sld', form=label, keyword=kwname)
-        if bud.spent or wl is None or boundary:
+        if bud.spent:
+            return
+        # the package-level periodictable.xray_sld is documented as the same calculation: same keywords, same numbers
+        top = _state['pt'].xray_sld(obj, energy=E, **kw)
+        ctx.evaluated(1, 'route_toplevel_alias')
+        try:
+            same = all(_same_bits(float(a), float(b)) or abs(float(a) - float(b)) <= 1e-14 * abs(float(b))
+                       for a, b in zip(top, got)) and len(top) == len(got)
+        except Exception:
+            same = False
+        if not same:
+            bud.violation('periodictable.xray_sld(%s, energy=%r) = %r but xsf.xray_sld gives %r [density in effect %r '
+                          'g/cm^3: %s]' % (call, E, top, got, d_eff, _why(kwname, R)),
+                          kind='route_alias', form=label, keyword=kwname)
+            return
+        if wl is None or boundary:
             return
         # refraction, alternately by energy= and by wavelength=
         by_wl = (len(label) + len(kwname)) % 2 == 1
